@@ -584,6 +584,14 @@ def c16(a):
             raise ToolError(f"Strtime.tla disagrees with glibc strftime on {len(mism)} events, e.g. {(mism[0][3] or {}).get('sfmt')} -> {(mism[0][3] or {}).get('s')!r}")
         c.add_summary({"stem": "glibc", "events": sum(1 for _ in open(trace)), "files": [trace], "classes": {"glibc-oracle": sum(1 for _ in open(trace))},
                        "distinct_nontrivial": 0, "samples": {}})
+        # ... and the RFC 2822 reader against Python's email.utils
+        trace2 = os.path.join(wd, "python2822.ndjson")
+        subprocess.run([sys.executable, os.path.join(VERIF, "lib", "py_rfc2822_oracle.py"), trace2, str(3000 if a.tier == "quick" else 60000), str(a.seed)], check=True)
+        pres, mism = tlc_trace("Trace_Strtime.tla", [trace2], "C16")
+        if mism:
+            raise ToolError(f"the RFC 2822 reader of Strtime.tla disagrees with Python's email.utils on {len(mism)} texts, e.g. {(mism[0][3] or {}).get('s')!r}: {mism[0][2]}")
+        nn = sum(1 for _ in open(trace2))
+        c.add_summary({"stem": "python2822", "events": nn, "files": [trace2], "classes": {"python-oracle": nn}, "distinct_nontrivial": 0, "samples": {}})
     drive_and_validate(c, a, binary, "c16", "Trace_Strtime.tla")
     c.rule = ("fmt: every conversion specifier x flag (_ - 0 ^ #) x width on values of every type, every plain specifier on "
               "seeded values (instants over the whole range, zones with sub-hour / sub-minute / extreme offsets) and on the "
